@@ -242,6 +242,7 @@ def run_instance(ctx, sh):
     except (core._Abort, core._Stop, core._Skip):
         raise
     except Exception as ex:
+        core.reraise_if_proxy_limitation(ex)
         for mod, name, fn in patched:
             setattr(mod, name, fn)
         ctx.fail("C16:no-exception", repr(ex))
